@@ -11,6 +11,7 @@ RULE = (
     "own-line or end-of-line). Oracle: r = rebuild(parse(P)); rebuild(parse(r)) == r byte for byte and the in-process CLI "
     "`test` on r prints OK / returns 0. Outputs of edit sequences are covered by the C05/C19 state machines which call the "
     "same fixed-point oracle. Non-trivial = r != P (the first pass normalised something)."
+    ' A third generator assigns generated nested Python values through the mapping API and then edits the same object through the CLI helper; the emitted text must be a fixed point accepted by `nima test`.'
 )
 ASSUMPTIONS = [
     "inputs whose rebuild is itself invalid Nix are C01's business and skipped here",
